@@ -211,6 +211,23 @@ func (c *compiler) End() {
 	// }
 }
 
+// importedGlobal resolves pkg.Name, where pkg is an imported package (and not shadowed by a local),
+// to the index of that package's global.
+func (c *compiler) importedGlobal(tok *token) (int, bool) {
+	if tok.Symbol != "." || tok.Tokens[0].Symbol != "(name)" || c.Locals.Exists(tok.Tokens[0].Text) {
+		return 0, false
+	}
+	pkg, ok := c.Imports[tok.Tokens[0].Text]
+	if !ok {
+		return 0, false
+	}
+	key := pkg + "." + tok.Tokens[1].Text
+	if !c.Globals.Exists(key) {
+		panicf("undefined: %v", key)
+	}
+	return c.Globals.Index(key), true
+}
+
 func (c *compiler) expPrefix(key string) string {
 	if c.ExportName == "" {
 		return key
@@ -332,6 +349,10 @@ func (c *compiler) compile(tok *token) []instruction {
 			res = append(res, c.compile(arg.Tokens[indexItem])...)
 			res = append(res, c.compile(arg.Tokens[indexKey])...)
 			res = append(res, instruction{Code: codeSet})
+		} else if idx, ok := c.importedGlobal(arg); ok { // a variable of an imported package
+			res = append(res, instruction{Code: codeGlobalGet, A: reg(idx)})
+			res = append(res, todo...)
+			res = append(res, instruction{Code: codeGlobalSet, A: reg(idx)})
 		} else if arg.Symbol == "." {
 			const indexItem, indexKey = 0, 1
 			res = append(res, c.compile(arg.Tokens[indexItem])...)
@@ -455,6 +476,8 @@ func (c *compiler) compile(tok *token) []instruction {
 				res = append(res, c.compile(arg.Tokens[indexItem])...)
 				res = append(res, c.compile(arg.Tokens[indexKey])...)
 				res = append(res, instruction{Code: codeSet})
+			} else if idx, ok := c.importedGlobal(arg); ok { // a variable of an imported package
+				res = append(res, instruction{Code: codeGlobalSet, A: reg(idx)})
 			} else if arg.Symbol == "." {
 				const indexItem, indexKey = 0, 1
 				res = append(res, c.compile(arg.Tokens[indexItem])...)
